@@ -21,9 +21,10 @@ fn lit_int(l: &syn::LitInt) -> R<(String, Option<IntTy>)> {
     Ok((l.base10_digits().to_string(), ty))
 }
 
+/// strips shared references and parentheses (`&mut e` is NOT transparent: C-REFMUT)
 pub fn strip_ref(e: &syn::Expr) -> &syn::Expr {
     match e {
-        syn::Expr::Reference(r) => strip_ref(&r.expr),
+        syn::Expr::Reference(r) if r.mutability.is_none() => strip_ref(&r.expr),
         syn::Expr::Paren(p) => strip_ref(&p.expr),
         _ => e,
     }
@@ -416,11 +417,14 @@ impl<'a> Cx<'a> {
                 };
                 let mut ts = vec![];
                 let mut tys = vec![];
+                let mut ops = vec![];
                 for (x, ex) in t.elems.iter().zip(exp.iter()) {
                     let v = self.lower_expr(x, ex.as_ref())?;
+                    ops.push((v.t.clone(), self.assign_log.len()));
                     ts.push(v.t);
                     tys.push(v.ty);
                 }
+                self.no_stale_reads(e.span(), &ops)?;
                 if ts.is_empty() {
                     return Ok(Val::unit());
                 }
@@ -454,7 +458,35 @@ impl<'a> Cx<'a> {
         }
     }
 
+    /// C-GENERIC: generic arguments in an expression path are not translated; the only ones that
+    /// mean what the translation assumes are the function's own float parameter `F` and `_`
+    pub fn check_path_args(&self, p: &syn::Path) -> R<()> {
+        for seg in &p.segments {
+            match &seg.arguments {
+                syn::PathArguments::None => {}
+                syn::PathArguments::AngleBracketed(a) => {
+                    for x in &a.args {
+                        let ok = match x {
+                            syn::GenericArgument::Type(syn::Type::Infer(_)) => true,
+                            syn::GenericArgument::Type(syn::Type::Path(tp)) => tp.qself.is_none() && tp.path.is_ident("F") && self.float_param,
+                            _ => false,
+                        };
+                        if !ok {
+                            return err(x.span(), format!("generic argument `{}` (only the function's own `F` and `_` are accepted)", quote::quote!(#x)));
+                        }
+                    }
+                }
+                syn::PathArguments::Parenthesized(_) => return err(seg.span(), "parenthesised path arguments"),
+            }
+        }
+        Ok(())
+    }
+
     fn lower_path(&mut self, p: &syn::ExprPath, expected: Option<&Ty>) -> R<Val> {
+        if p.qself.is_some() {
+            return err(p.span(), "qualified path `<T as Trait>::..` is unsupported");
+        }
+        self.check_path_args(&p.path)?;
         if let Some(id) = p.path.get_ident() {
             let n = id.to_string();
             if let Some((_, v)) = self.lookup(&n) {
@@ -538,6 +570,23 @@ impl<'a> Cx<'a> {
     }
 
     fn lower_struct(&mut self, s: &syn::ExprStruct) -> R<Val> {
+        if s.qself.is_some() {
+            return err(s.span(), "qualified path in a struct literal");
+        }
+        self.check_path_args(&s.path)?;
+        {
+            // C-FIELD: a field given twice (only possible under `cfg`) would silently win / lose
+            let mut seen = std::collections::HashSet::new();
+            for fv in &s.fields {
+                let n = match &fv.member {
+                    syn::Member::Named(id) => id.to_string(),
+                    syn::Member::Unnamed(i) => i.index.to_string(),
+                };
+                if !seen.insert(n.clone()) {
+                    return err(fv.span(), format!("field `{}` is given twice in a struct literal", n));
+                }
+            }
+        }
         let sname = match path_str(&s.path).as_str() {
             "Self" => self.self_kind.clone().unwrap_or_default(),
             n => n.to_string(),
@@ -570,6 +619,7 @@ impl<'a> Cx<'a> {
             return err(s.span(), "only `ExtendedFloat { mant, exp }` / single-field struct literals are supported");
         }
         let mut m: HashMap<String, String> = HashMap::new();
+        let mut ops = vec![];
         for fv in &s.fields {
             let name = match &fv.member {
                 syn::Member::Named(id) => id.to_string(),
@@ -580,8 +630,10 @@ impl<'a> Cx<'a> {
             if v.ty != ty {
                 return err(fv.span(), format!("field `{}` : {} initialised with {}", name, ty, v.ty));
             }
+            ops.push((v.t.clone(), self.assign_log.len()));
             m.insert(name, v.t);
         }
+        self.no_stale_reads(s.span(), &ops)?;
         match (m.get("mant"), m.get("exp")) {
             (Some(a), Some(b)) if m.len() == 2 => Ok(Val::new(format!("(mkExt {} {})", a, b), Ty::Ext)),
             _ => err(s.span(), "ExtendedFloat literal must give exactly `mant` and `exp`"),
@@ -714,8 +766,10 @@ impl<'a> Cx<'a> {
                 let l = self.lower_expr(&b.left, Some(&Ty::Bool))?;
                 // the right operand is evaluated only if needed
                 self.stmts.push(vec![]);
+                let mark = self.assign_log.len();
                 let r = self.lower_expr(&b.right, Some(&Ty::Bool))?;
                 let rs = self.stmts.pop().unwrap();
+                self.no_updates_since(b.right.span(), mark, "the right operand of `&&` / `||`")?;
                 if l.ty != Ty::Bool || r.ty != Ty::Bool {
                     return err(sp, "`&&` / `||` on non-bool");
                 }
@@ -734,7 +788,9 @@ impl<'a> Cx<'a> {
             Lt(_) | Le(_) | Gt(_) | Ge(_) | Eq(_) | Ne(_) => {
                 let ty = self.op_ty(sp, &b.left, &b.right, None)?;
                 let l = self.lower_expr(&b.left, Some(&ty))?;
+                let after_l = self.assign_log.len();
                 let r = self.lower_expr(&b.right, Some(&ty))?;
+                self.no_stale_reads(sp, &[(l.t.clone(), after_l)])?;
                 if l.ty != r.ty {
                     return err(sp, format!("comparison of {} with {}", l.ty, r.ty));
                 }
@@ -757,7 +813,9 @@ impl<'a> Cx<'a> {
             Add(_) | Sub(_) | Mul(_) | Div(_) | Rem(_) | BitAnd(_) | BitOr(_) | BitXor(_) => {
                 let ty = self.op_ty(sp, &b.left, &b.right, expected)?;
                 let l = self.lower_expr(&b.left, Some(&ty))?;
+                let after_l = self.assign_log.len();
                 let r = self.lower_expr(&b.right, Some(&ty))?;
+                self.no_stale_reads(sp, &[(l.t.clone(), after_l)])?;
                 if l.ty != ty || r.ty != ty {
                     return err(sp, format!("operands {} / {} for an operation at {}", l.ty, r.ty, ty));
                 }
@@ -775,7 +833,9 @@ impl<'a> Cx<'a> {
             Shl(_) | Shr(_) => {
                 let lt = self.ty_of(&b.left).or(expected.cloned()).unwrap_or(Ty::Int(IntTy::I32));
                 let l = self.lower_expr(&b.left, Some(&lt))?;
+                let after_l = self.assign_log.len();
                 let r = self.lower_expr(&b.right, None)?;
+                self.no_stale_reads(sp, &[(l.t.clone(), after_l)])?;
                 self.shift(sp, if matches!(b.op, Shl(_)) { "shl" } else { "shr" }, &l, &r)
             }
             AddAssign(_) | SubAssign(_) | MulAssign(_) | DivAssign(_) | RemAssign(_) | BitAndAssign(_)
@@ -828,6 +888,7 @@ impl<'a> Cx<'a> {
             return err(sp, "wrong number of arguments");
         }
         let mut ts = pre_args;
+        let mut ops: Vec<(String, usize)> = ts.iter().map(|t| (t.clone(), self.assign_log.len())).collect();
         let mut muts: Vec<String> = vec![];
         for ((pty, pmut), a) in ps.iter().zip(args.iter()) {
             if *pmut {
@@ -858,16 +919,21 @@ impl<'a> Cx<'a> {
                     return err(a.span(), "the same variable is passed twice as `&mut`");
                 }
                 ts.push(self.cn(&x));
+                ops.push((self.cn(&x), self.assign_log.len()));
                 muts.push(x);
             } else {
+                // a by-value iterator parameter moves the iterator: `&mut it` would advance the
+                // caller's (C-REFMUT); `lower_expr` refuses `&mut e` here
                 let v = self.lower_expr(strip_ref(a), Some(pty))?;
                 let v = self.coerce(v, pty);
                 if v.ty != *pty {
                     return err(a.span(), format!("argument of type {} for a parameter of type {}", v.ty, pty));
                 }
+                ops.push((v.t.clone(), self.assign_log.len()));
                 ts.push(v.t);
             }
         }
+        self.no_stale_reads(sp, &ops)?;
         let app = if ts.is_empty() { head } else { format!("{} {}", head, ts.join(" ")) };
         if !monadic {
             return Ok(Val::new(format!("({})", app), ret.clone()));
@@ -901,6 +967,10 @@ impl<'a> Cx<'a> {
             syn::Expr::Path(p) => p,
             _ => return err(sp, "call of a non-path"),
         };
+        if p.qself.is_some() {
+            return err(sp, "qualified path `<T as Trait>::..` is unsupported");
+        }
+        self.check_path_args(&p.path)?;
         let s = path_str(&p.path);
         let args: Vec<&syn::Expr> = c.args.iter().collect();
         // callback parameter
@@ -982,6 +1052,19 @@ impl<'a> Cx<'a> {
         let sp = m.span();
         let name = m.method.to_string();
         let args: Vec<&syn::Expr> = m.args.iter().collect();
+        if let Some(tf) = &m.turbofish {
+            // C-GENERIC: `x.m::<T>()`: only the function's own `F` (and `_`)
+            for x in &tf.args {
+                let ok = match x {
+                    syn::GenericArgument::Type(syn::Type::Infer(_)) => true,
+                    syn::GenericArgument::Type(syn::Type::Path(tp)) => tp.qself.is_none() && tp.path.is_ident("F") && self.float_param,
+                    _ => false,
+                };
+                if !ok {
+                    return err(x.span(), format!("generic argument `{}` (only the function's own `F` and `_` are accepted)", quote::quote!(#x)));
+                }
+            }
+        }
         if let Some(v) = self.lower_method_ext(m, expected)? {
             return Ok(v);
         }
@@ -990,11 +1073,14 @@ impl<'a> Cx<'a> {
             args.first().and_then(|a| self.ty_of(a)).or(expected.cloned())
         });
         let recv = self.lower_expr(&m.receiver, rty.as_ref())?;
+        let after_recv = self.assign_log.len();
+        let recv_t = recv.t.clone();
         let arg1 = |cx: &mut Self, ty: &Ty| -> R<Val> {
             if args.len() != 1 {
                 return err(sp, "method takes one argument");
             }
             let v = cx.lower_expr(args[0], Some(ty))?;
+            cx.no_stale_reads(sp, &[(recv_t.clone(), after_recv)])?;
             if v.ty != *ty {
                 return err(sp, format!("method argument of type {} where {} is expected", v.ty, ty));
             }
